@@ -16,6 +16,7 @@ import Driver.CmdDef
 import Driver.CmdDet
 import Driver.CmdFull
 import Driver.CmdWhole
+import Driver.CmdSur
 open Lean Driver
 
 def dispatch (cmd : String) (j : Json) : R Json :=
@@ -41,6 +42,8 @@ def dispatch (cmd : String) (j : Json) : R Json :=
   | "tr.coord" => cmdTrCoord j
   | "gp.neighbors" => cmdGpNeighbors j
   | "gp.robust" => cmdGpRobust j
+  | "gp.run" => cmdGpRun j
+  | "sur.jrun" => cmdSurJrun j
   | "srch.es" => cmdSrchEs j
   | "srch.mask" => cmdSrchMask j
   | "srch.hedge" => cmdSrchHedge j
